@@ -141,6 +141,12 @@ def midpoints (half : α) (g : List α) : List α :=
 def expandReps {σ τ : Type} (mk : σ → τ) (samples : List (σ × Nat)) : List τ :=
   samples.flatMap (fun s => List.replicate s.2 (mk s.1))
 
+/-- `PulserData.__init__`: the noise model handed to `HamiltonianData.from_sequence` (the device's
+default one iff `prefer_device_noise_model`) and the number of trajectories requested — always
+`config.n_trajectories`, wherever the noise model came from. -/
+def trajectoryRequest {ν : Type} (prefer : Bool) (deviceNoise configNoise : ν) (n : Nat) : ν × Nat :=
+  (if prefer then deviceNoise else configNoise, n)
+
 /-! ### evaluation-time tests (pulser `EmulationConfig`) -/
 
 /-- `is_time_in_evaluation_times(t, evaluation_times, tol)`. -/
